@@ -195,12 +195,115 @@ pub fn noisy_stream(rng: &mut crate::rng::Rng, kind: usize, size: usize) -> (Vec
     (buf, label)
 }
 
+/// One MsgFrameIter driven by a sequence of different calls (next, nth(k), size_hint, consumed, take(k).count(),
+/// peekable().peek(), find-none) against a model that only knows the reference frame list: whatever the order of calls,
+/// every frame handed out is the next reference frame and `consumed()` is its end. The sequence is a function of `seed`.
+pub fn oracle_iter_ops(buf: &[u8], seed: u64) -> Result<(), (String, String)> {
+    match catch(|| oracle_iter_ops_inner(buf, seed)) {
+        Ok(r) => r,
+        Err(p) => Err((panic_signature(&p), format!("a sequence of iterator calls panicked: {}", p))),
+    }
+}
+fn oracle_iter_ops_inner(buf: &[u8], seed: u64) -> Result<(), (String, String)> {
+    let (rframes, rtotal) = ref_scan_all(buf);
+    let n = rframes.len();
+    let mut rng = crate::rng::Rng::new(seed ^ 0x17E2_A7);
+    let mut it = MsgFrameIter::new(buf);
+    let mut i = 0usize; // frames handed out (or skipped) so far; > n once the end was seen
+    let mut trace: Vec<String> = Vec::new();
+    let expect_consumed = |i: usize| -> usize {
+        if i == 0 {
+            0
+        } else if i <= n {
+            rframes[i - 1].1
+        } else {
+            rtotal
+        }
+    };
+    let fail = |what: String, trace: &Vec<String>| -> Result<(), (String, String)> { Err(("c05:iterator-call-sequence".into(), format!("after [{}]: {}", trace.join(", "), what))) };
+    for _ in 0..(4 + rng.below(10)) {
+        match rng.below(8) {
+            0 | 1 => {
+                let got = (&mut it).next().map(|m| frame_range(buf, &m));
+                trace.push("next".into());
+                if got != rframes.get(i).copied() {
+                    return fail(format!("next() returned {:?}, the reference list has {:?} at position {}", got, rframes.get(i), i), &trace);
+                }
+                i = (i + 1).min(n + 1);
+            }
+            2 => {
+                let k = rng.below(3) as usize;
+                let got = (&mut it).nth(k).map(|m| frame_range(buf, &m));
+                trace.push(format!("nth({})", k));
+                if got != rframes.get(i + k).copied() {
+                    return fail(format!("nth({}) returned {:?}, the reference list has {:?} at position {}", k, got, rframes.get(i + k), i + k), &trace);
+                }
+                i = (i + k + 1).min(n + 1);
+            }
+            3 => {
+                let (lo, hi) = (&mut it).size_hint();
+                trace.push("size_hint".into());
+                let rem = n.saturating_sub(i);
+                if lo > rem || hi.map(|h| h < rem).unwrap_or(false) {
+                    return fail(format!("size_hint() = ({}, {:?}) but {} frames remain", lo, hi, rem), &trace);
+                }
+            }
+            4 => {
+                trace.push("consumed".into());
+                // only defined by the statement after a frame was handed out or the end was reported
+                if i > 0 && it.consumed() != expect_consumed(i) {
+                    return fail(format!("consumed() = {}, expected {}", it.consumed(), expect_consumed(i)), &trace);
+                }
+            }
+            5 => {
+                let k = 1 + rng.below(2) as usize;
+                let c = (&mut it).take(k).count();
+                trace.push(format!("take({}).count", k));
+                let rem = n.saturating_sub(i);
+                if c != k.min(rem) {
+                    return fail(format!("take({}).count() = {}, {} frames remained", k, c, rem), &trace);
+                }
+                // take(k) stops after k items without asking for more; with fewer left it has seen the end
+                i = if rem >= k { i + k } else { n + 1 };
+            }
+            6 => {
+                let mut pk = (&mut it).peekable();
+                let got = pk.peek().map(|m| frame_range(buf, m));
+                trace.push("peekable.peek".into());
+                if got != rframes.get(i).copied() {
+                    return fail(format!("peek() returned {:?}, the reference list has {:?}", got, rframes.get(i)), &trace);
+                }
+                i = (i + 1).min(n + 1);
+            }
+            _ => {
+                let (lo, _) = (&mut it).size_hint();
+                let got = (&mut it).nth(1).map(|m| frame_range(buf, &m));
+                trace.push("size_hint+nth(1)".into());
+                if lo > n.saturating_sub(i) || got != rframes.get(i + 1).copied() {
+                    return fail(format!("size_hint() then nth(1) returned {:?}, the reference list has {:?}", got, rframes.get(i + 1)), &trace);
+                }
+                i = (i + 2).min(n + 1);
+            }
+        }
+        if it.consumed() > buf.len() {
+            return fail(format!("consumed() = {} exceeds the buffer length {}", it.consumed(), buf.len()), &trace);
+        }
+    }
+    Ok(())
+}
+
 /// C05 oracle on a raw buffer
 pub fn oracle_scan(buf: &[u8]) -> Result<(), (String, String)> {
     oracle_scan_with(buf, true)
 }
 /// `adaptors` = false: scanner, dead-byte invariant and plain iteration only (for very long noisy streams)
 pub fn oracle_scan_with(buf: &[u8], adaptors: bool) -> Result<(), (String, String)> {
+    match catch(|| oracle_scan_inner(buf, adaptors)) {
+        Ok(r) => r,
+        Err(p) => Err((panic_signature(&p), format!("scanning / iterating panicked: {}", p))),
+    }
+}
+fn oracle_scan_inner(buf: &[u8], adaptors: bool) -> Result<(), (String, String)> {
     let (c, f) = next_msg_frame(buf);
     let (rc, rf) = ref_scan(buf);
     if c > buf.len() {
@@ -346,6 +449,10 @@ pub fn oracle_scan_with(buf: &[u8], adaptors: bool) -> Result<(), (String, Strin
             return Err(("c05:iterator-enumerate-filter".into(), format!("enumerate().filter(odd) yields {:?}", odd)));
         }
     }
+    // mixed call sequences on one iterator (two sequences derived from the buffer contents)
+    let h = hash_bytes(buf);
+    oracle_iter_ops(buf, h)?;
+    oracle_iter_ops(buf, h.rotate_left(17) ^ 0x9E37_79B9)?;
     // further calls after the end keep returning None and do not move backwards
     let before = it.consumed();
     for _ in 0..3 {
@@ -450,6 +557,12 @@ pub fn feed_chunks_iter(stream: &[u8], cuts: &[usize]) -> Result<(Vec<Vec<u8>>, 
 }
 
 pub fn oracle_chunks(stream: &[u8], cuts: &[usize]) -> Result<(), (String, String)> {
+    match catch(|| oracle_chunks_inner(stream, cuts)) {
+        Ok(r) => r,
+        Err(p) => Err((panic_signature(&p), format!("feeding the stream in pieces panicked: {}", p))),
+    }
+}
+fn oracle_chunks_inner(stream: &[u8], cuts: &[usize]) -> Result<(), (String, String)> {
     let (d1, t1) = feed_chunks(stream, &[])?;
     let (d2, t2) = feed_chunks(stream, cuts)?;
     let (d3, t3) = feed_chunks_iter(stream, cuts)?;
@@ -519,7 +632,7 @@ pub fn run(ctx: &Ctx, replay: Option<&J>, chunked: bool) -> CheckResult {
         "proptest-generated buffers of up to 6 segments {valid frame (payload 0..=1023, random reserved bits), garbage, lone 0xD3, \
          header announcing a long body, frame with one flipped bit, truncated frame, frame nested in the payload of a valid/invalid outer \
          candidate, D3-rich bytes}, plus an enumeration of all 65536 (reserved bits, length) header patterns as valid frames inside buffers longer than a maximum-length frame, streams of 66-200 KB (total lengths around 2^16 and 2^17), and noisy stretches between valid frames (255..1200 damaged short frames, 64..140 damaged kilobyte frames, 0xD3 runs of 1030..66000 bytes, 33-200 KB of random and preamble-rich noise, 255..12000 empty candidates with a wrong checksum); oracle: next_msg_frame == reference scanner (consumed, presence, exact byte range), consumed<=len, every \
-         skipped 0xD3 is a complete wrong-CRC candidate, MsgFrameIter yields the reference frame list/consumed total and terminates, and nth/skip/step_by/count/last/size_hint/fold/for_each/find/position/take/peekable/enumerate+filter agree with it; frames whose checksum is a special value (0x000000, 0xFFFFFF, 0xD30000, ...) are included. \
+         skipped 0xD3 is a complete wrong-CRC candidate, MsgFrameIter yields the reference frame list/consumed total and terminates, and nth/skip/step_by/count/last/size_hint/fold/for_each/find/position/take/peekable/enumerate+filter agree with it, and so do mixed call sequences on one iterator (next, nth(k), size_hint, consumed, take(k).count(), peek, size_hint followed by nth) against a model that only holds the reference frame list; frames whose checksum is a special value (0x000000, 0xFFFFFF, 0xD30000, ...) are included. \
          non-trivial = >=2 segment kinds and a 0xD3 before the delivered frame or an incomplete candidate; distinct = hash of the buffer"
             .to_string()
     } else {
